@@ -1,9 +1,8 @@
 //go:build verif
 
 // Read-only access for check C16 (overlaid into internal/transport at check
-// time, never present in /repo): the REAL sender side split of an
-// InstallSnapshot message into chunks, so that the chunks fed to the real
-// receiving side (Chunk.Add) are exactly those a leader would send.
+// time, never present in /repo): the chunks a leader would send for an
+// InstallSnapshot message, for the real receiving side (Chunk.Add).
 package transport
 
 import (
@@ -11,26 +10,11 @@ import (
 	pb "github.com/lni/dragonboat/v4/raftpb"
 )
 
-// VerifSplitSnapshotMessage is splitSnapshotMessage + loadChunkData, i.e. what
-// job.sendSnapshot/sendChunks put on the wire for a regular snapshot.
+// VerifSplitSnapshotMessage: what a sender puts on the wire for a regular
+// snapshot, obtained from the real Transport.SendSnapshot (shim
+// transport_send_export.go) - no private sender function is named here.
 func VerifSplitSnapshotMessage(m pb.Message, did uint64, fs vfs.IFS) ([]pb.Chunk, error) {
-	chunks, err := splitSnapshotMessage(m, fs)
-	if err != nil {
-		return nil, err
-	}
-	out := make([]pb.Chunk, 0, len(chunks))
-	for _, c := range chunks {
-		c.DeploymentId = did
-		if !c.Witness {
-			data, err := loadChunkData(c, nil, fs)
-			if err != nil {
-				return nil, err
-			}
-			c.Data = data
-		}
-		out = append(out, c)
-	}
-	return out, nil
+	return VerifSendSnapshot(m, did, fs)
 }
 
 // VerifSetSnapshotChunkSize changes the sender side chunk size (a package
